@@ -51,6 +51,14 @@ class _modules_copyable:
     context switches.
     """
 
+    # Shared by all uses (this class is effectively a singleton). Note that
+    # this state must not be reset each time the context manager is
+    # instantiated, otherwise nested and/or concurrent uses lose track of each
+    # other.
+    lock = RLock()
+    refcount = 0
+    patched_table = False
+
     def __new__(cls, *args, **kwargs):
         """
         Make this class a singleton (there exists at most one instance).
@@ -58,11 +66,6 @@ class _modules_copyable:
         if not hasattr(cls, "__instance__"):
             cls.__instance__ = super().__new__(cls, *args, **kwargs)
         return cls.__instance__
-
-    def __init__(self):
-        self.lock = RLock()
-        self.refcount = 0
-        self.patched_table = False
 
     def __enter__(self):
         with self.lock:
